@@ -85,11 +85,35 @@ theorem hashParts_nonempty (l : List Mod) (hw : WfNames l) : ∀ fi, ∀ p ∈ h
     · rw [hp]; simp
     · exact ih (fun m' hm' => hw m' (List.mem_cons_of_mem _ hm')) _ p hp
 
-theorem modulesHash_eq (s : Ctx) (hw : WfNames s.mods) :
-    s.modulesHashG rs = Jenkins.finish (Jenkins.absorbAll 0 (hashPartsG rs s.mods 0).flatten) := by
-  unfold Ctx.modulesHashG
+/-- the hash of a module list -/
+def hashOfList (rs : Bool) (l : List Mod) : BitVec 32 := Jenkins.multi ((hashPartsG rs l 0).foldl Jenkins.multi 0) []
+
+theorem modulesHashG_eq_list (sk : Bool) (s : Ctx) : s.modulesHashG rs sk = hashOfList rs (hashedMods sk s) := rfl
+
+theorem hashOfList_eq (l : List Mod) (hw : WfNames l) :
+    hashOfList rs l = Jenkins.finish (Jenkins.absorbAll 0 (hashPartsG rs l 0).flatten) := by
+  unfold hashOfList
   rw [foldl_multi_eq _ (hashParts_nonempty rs _ hw 0)]
   rfl
+
+/-- the names in `internal_modules[]` are not empty (whatever the table holds when `Generated/CtxFacts.lean` is written) -/
+theorem wfNames_internal : WfNames internalHashMods := by
+  intro m hm
+  have h : internalHashMods.all (fun m => !m.src.name.isEmpty && m.allFeats.isEmpty) = true := by decide +kernel
+  rw [List.all_eq_true] at h
+  have h1 := h m hm
+  simp only [Bool.and_eq_true, Bool.not_eq_true', List.isEmpty_iff] at h1
+  refine ⟨fun h0 => by simp [h0] at h1, fun f hf => ?_⟩
+  rw [h1.2] at hf; cases hf
+
+theorem wfNames_hashed {sk : Bool} {s : Ctx} (hw : WfNames s.mods) : WfNames (hashedMods sk s) := by
+  intro m hm
+  unfold hashedMods at hm
+  rcases List.mem_append.mp hm with h | h
+  · split at h
+    · cases h
+    · exact wfNames_internal m h
+  · exact hw m h
 
 /-- flipping `implemented` of one module -/
 def flipImpl (m : Mod) : Mod := { m with implemented := !m.implemented }
@@ -104,11 +128,9 @@ theorem wfNames_flip {pre suf : List Mod} {m : Mod} (h : WfNames (pre ++ m :: su
   · exact h m (by simp)
   · exact h x (by simp [hx])
 
-/-- **the 32-bit value changes when `implemented` of any one module is flipped** (everything else equal) -/
-theorem hash_flip_implemented (s s' : Ctx) (pre suf : List Mod) (m : Mod) (hs : s.mods = pre ++ m :: suf)
-    (hs' : s'.mods = pre ++ flipImpl m :: suf) (hw : WfNames s.mods) : s.modulesHashG rs ≠ s'.modulesHashG rs := by
-  have hw' : WfNames s'.mods := by rw [hs']; rw [hs] at hw; exact wfNames_flip hw
-  rw [modulesHash_eq rs s hw, modulesHash_eq rs s' hw', hs, hs']
+theorem hashOfList_flip (pre suf : List Mod) (m : Mod) (hw : WfNames (pre ++ m :: suf)) :
+    hashOfList rs (pre ++ m :: suf) ≠ hashOfList rs (pre ++ flipImpl m :: suf) := by
+  rw [hashOfList_eq rs _ hw, hashOfList_eq rs _ (wfNames_flip hw)]
   rw [hashParts_append, hashParts_append, hashParts_cons, hashParts_cons]
   have h1 : modPartsHead rs (flipImpl m) (fiAfter rs pre 0) = modPartsHead rs m (fiAfter rs pre 0) := rfl
   rw [h1, fiAfter_flip]
@@ -118,5 +140,19 @@ theorem hash_flip_implemented (s s' : Ctx) (pre suf : List Mod) (m : Mod) (hs : 
   apply Jenkins.one_byte_change
   unfold implByte flipImpl
   cases m.implemented <;> simp
+
+/-- **the 32-bit value changes when `implemented` of any one module is flipped** (everything else equal), whether or not
+    the internal modules are hashed in front of the others (`sk`) -/
+theorem hash_flip_implemented (sk : Bool) (s s' : Ctx) (pre suf : List Mod) (m : Mod) (hs : s.mods = pre ++ m :: suf)
+    (hs' : s'.mods = pre ++ flipImpl m :: suf) (hw : WfNames s.mods) : s.modulesHashG rs sk ≠ s'.modulesHashG rs sk := by
+  rw [modulesHashG_eq_list, modulesHashG_eq_list]
+  have e1 : hashedMods sk s = ((if sk then [] else internalHashMods) ++ pre) ++ m :: suf := by
+    unfold hashedMods; rw [hs, List.append_assoc]
+  have e2 : hashedMods sk s' = ((if sk then [] else internalHashMods) ++ pre) ++ flipImpl m :: suf := by
+    unfold hashedMods; rw [hs', List.append_assoc]
+  rw [e2]
+  have hw2 := wfNames_hashed (sk := sk) hw
+  rw [e1] at hw2 ⊢
+  exact hashOfList_flip rs _ _ _ hw2
 
 end LyModel.Ctx
